@@ -26,23 +26,57 @@ ASSUMPTIONS = [
 ]
 
 
+ALLOWED_CREATORS = {"_action:Action.continue_task", "_action:start_action", "_action:startTask", "_action:log_call.logging_wrapper"}
+
+
+def _start_wrappers(ctx, start):
+    """private helper functions that do nothing but log the start message of the action handed to them exactly once on every
+    normal path (`def _started(action, fields): action._start(fields); return action`) -- found as a fixed point"""
+    wrappers = set()
+    changed = True
+    prod = set(ctx.p.all_funcs())
+    while changed:
+        changed = False
+        for g in prod:
+            if g in wrappers or g is start or g.fq in ALLOWED_CREATORS or not g.name.startswith("_") or g.name.startswith("__"):
+                continue
+            ev = []
+            for h in [start] + sorted(wrappers, key=lambda x: x.fq):
+                ev += ctx.calls_to(g, h)
+            if not ev:
+                continue
+            cfg = ctx.cfg(g)
+            rng = cfg.count_range(cfg.entry, [cfg.exit], lambda n: sum(1 for (nn, c, m) in ev if nn is n), avoid_edges=common.quiet_exc_edges(ctx, g))
+            # the action started is one of the helper's own parameters (it did not create or fetch it itself)
+            on_param = all(isinstance(c.func, ast.Attribute) and isinstance(c.func.value, ast.Name) and c.func.value.id in g.params or (c.args and isinstance(c.args[0], ast.Name) and c.args[0].id in g.params)
+                           for _n, c, _m in ev)
+            if rng == (1, 1) and on_param:
+                wrappers.add(g)
+                changed = True
+    return wrappers
+
+
 def _creators(chk):
     ctx = chk.ctx
     start = ctx.func("_action", "Action._start")
+    wrappers = _start_wrappers(ctx, start)
     out = {}
-    for s in ctx.cg.callers_of(start):
-        if s.func in set(ctx.p.all_funcs()):
-            out.setdefault(s.func, []).append(s)
-    return start, out
+    prod = set(ctx.p.all_funcs())
+    for h in [start] + sorted(wrappers, key=lambda x: x.fq):
+        for s in ctx.cg.callers_of(h):
+            if s.func in prod and s.func not in wrappers:
+                out.setdefault(s.func, []).append(s)
+    chk.notes.append("C03.start: start-message wrappers recognised: %s" % sorted(w.fq for w in wrappers))
+    return start, out, wrappers
 
 
 def rule_start(chk):
     ctx = chk.ctx
-    start, creators = _creators(chk)
+    start, creators, wrappers = _creators(chk)
     chk.instances("C03.start:_start callers", len(creators), 4)
     stask = ctx.func("_action", "startTask")
     sact = ctx.func("_action", "start_action")
-    allowed = {"_action:Action.continue_task", "_action:start_action", "_action:startTask", "_action:log_call.logging_wrapper"}
+    allowed = ALLOWED_CREATORS
     for f in sorted(creators, key=lambda x: x.fq):
         chk.req(f.fq in allowed, "C03.start", "%s:may-call-_start" % f.fq, chk.where(f),
                 good="action creator", fail="%s logs a start message for an action it did not create" % f.fq)
@@ -60,7 +94,7 @@ def rule_start(chk):
                     todo.append(h)
     chk.req(not (set(impls) & reach), "C03.start", "Action.__init__:emits-nothing", chk.where(init),
             good="constructing an Action writes no message", fail="Action.__init__ can reach an ILogger.write")
-    starters = [start, stask, sact]
+    starters = [start, stask, sact] + sorted(wrappers, key=lambda x: x.fq)
     for f in [ctx.func("_action", "Action.continue_task"), stask, sact, ctx.func("_action", "log_call.logging_wrapper")]:
         cfg = ctx.cfg(f)
         ev = []
@@ -277,8 +311,9 @@ def rule_propagate(chk):
     run = ctx.func("_action", "Action.run")
     rc = ctx.cfg(run)
     okret = True
+    from .. import exprs as X
     for r in common.returns_of(rc):
-        v = r.ast.value
+        v = X.inline(run, r.ast.value) if r.ast.value is not None else None  # `result = f(...)` ... `return result` is the same
         if not (isinstance(v, ast.Call) and isinstance(v.func, ast.Name) and v.func.id in run.params
                 and any(isinstance(a, ast.Starred) for a in v.args)):
             okret = False
